@@ -99,6 +99,9 @@ pub fn base_text(lay: &str, f0: &Value) -> String {
         "substvar_last" => format!("{}, ${{shlibs:Depends}}", es.join(", ")),
         "empty_entry" => es.join(", , "),
         "trailing_comma" => format!("{},", es.join(", ")),
+        "trailing_comma_blank" => format!("{}, ", es.join(", ")),
+        "trailing_comma_fold" => format!("{},\n ", es.join(",\n ")),
+        "blank_only" => " ".to_string(),
         _ => es.join(", "),
     }
 }
@@ -218,17 +221,18 @@ pub fn run_edge(case: &Value, seed: u64) -> Outcome {
     o.key = format!("{}|{}|{}", case["b"], case["h"], case["op"]);
     o.nontrivial = true;
     // once with a fresh handle per call, once with handles kept across calls
-    replay(&mut o, case, seed, false);
-    if o.viol.is_empty() { replay(&mut o, case, seed, true); }
+    // (the kept-handle pass also varies the BLANK character of the base text: the lexer's blanks are ' ', TAB and CR)
+    replay(&mut o, case, seed, false, ' ');
+    if o.viol.is_empty() { let b = [' ', '\t', '\r'][(crate::conc::hash64(&o.key) % 3) as usize]; replay(&mut o, case, seed, true, b); }
     o
 }
 
-fn replay(o: &mut Outcome, case: &Value, _seed: u64, persistent: bool) {
+fn replay(o: &mut Outcome, case: &Value, _seed: u64, persistent: bool, blank: char) {
     let mut handles = Handles { on: persistent, ..Default::default() };
     o.evals += 1;
     let lay = case["lay"].as_str().unwrap_or("plain");
     let has_sv = case["sv"].as_u64() == Some(1);
-    let text0 = base_text(lay, &case["f0"]);
+    let text0 = base_text(lay, &case["f0"]).replace(' ', &blank.to_string());
     let mut root = match guarded("Relations::parse_relaxed", || Relations::parse_relaxed(&text0, true)) {
         Ok((r, e)) if e.is_empty() => r,
         Ok((_, e)) => { o.d("base_rejected", &text0, format!("{:?}", e)); return; }
